@@ -30,9 +30,32 @@ func Label() *rapid.Generator[string] {
 	})
 }
 
-// Name draws a valid domain name: 1..8 labels, total wire length ≤ 255.
+// Name draws a valid domain name: 1..8 labels, total wire length ≤ 255 — one in twelve of exactly 253, 254 or 255
+// wire octets (the longest names RFC 1035 allows).
 func Name() *rapid.Generator[string] {
 	return rapid.Custom(func(t *rapid.T) string {
+		if rapid.IntRange(0, 11).Draw(t, "maxlen") == 0 {
+			// wire length = Σ(len+1) + 1; three labels of 63 take 192 octets, the last label fills up to the target
+			target := rapid.SampledFrom([]int{255, 255, 254, 253}).Draw(t, "wirelen")
+			last := target - 194
+			ls := []string{strings.Repeat("a", 63), strings.Repeat("b", 63), strings.Repeat("c", 63), strings.Repeat("d", last)}
+			if rapid.Bool().Draw(t, "manylabels") { // the same length with many short labels: 126 one-octet labels + one of (target-254)… keep it simple: 2-octet cells
+				ls = nil
+				rest := target - 1
+				for rest > 0 {
+					l := min(rest-1, 1+rapid.IntRange(0, 2).Draw(t, "cell"))
+					if rest-1-l == 1 { // never leave a single octet (a label needs a length octet and ≥1 content octet)
+						l--
+					}
+					if l <= 0 {
+						break
+					}
+					ls = append(ls, strings.Repeat("e", l))
+					rest -= l + 1
+				}
+			}
+			return strings.Join(ls, ".")
+		}
 		n := rapid.IntRange(1, 8).Draw(t, "nlabels")
 		var ls []string
 		wire := 1
@@ -104,7 +127,12 @@ func labelWire(hostile, dotted bool) *rapid.Generator[[]byte] {
 				continue
 			}
 			nl := rapid.IntRange(0, 5).Draw(t, "nlabels")
-			full := (shape == 0 && i == 0) || (shape == 1 && i == n-1) || shape == 2
+			full := (shape == 0 && i == 0) || (shape == 1 && i == n-1) || shape == 2 || (shape == 3 && i == 1)
+			exact := 0
+			if full && rapid.Bool().Draw(t, "exact") {
+				// a name of exactly 254..257 wire octets (root included): the limit is 255, wherever the name stands in the list
+				nl, exact = 4, rapid.SampledFrom([]int{254, 255, 256, 257}).Draw(t, "exactlen")
+			}
 			var mine []int
 			for k := 0; k < nl; k++ {
 				l := Label().Draw(t, "label")
@@ -113,6 +141,12 @@ func labelWire(hostile, dotted bool) *rapid.Generator[[]byte] {
 				}
 				if full { // names at and around the 255-octet limit: labels of 61..63 octets
 					l = strings.Repeat("x", rapid.IntRange(61, 63).Draw(t, "fulllen"))
+				}
+				if exact > 0 {
+					l = strings.Repeat("y", 63)
+					if k == 3 {
+						l = strings.Repeat("z", exact-194)
+					}
 				}
 				mine = append(mine, len(b))
 				b = append(b, byte(len(l)))
